@@ -17,10 +17,16 @@ type pcase struct {
 	Ladder  string  // "rl" or "pl"
 	Target  int
 	Rich    bool
-	P       *spec.Packet
+	// dense strata: Dense names the kind ("site", "pair", "subid", "filter"), Args its parameters
+	Dense string
+	Args  []int
+	P     *spec.Packet
 }
 
 func (c *pcase) describe() string {
+	if c.Dense != "" {
+		return describeDense(c.Type, c.Dense, c.Args)
+	}
 	if c.Vec != nil {
 		return gen.Schemas[c.Type].Describe(c.Vec)
 	}
@@ -29,7 +35,10 @@ func (c *pcase) describe() string {
 
 func (c *pcase) toCase(harness string) core.Case {
 	pr := map[string]any{"type": int(c.Type), "stratum": c.Stratum}
-	if c.Vec != nil {
+	if c.Dense != "" {
+		pr["dense"] = c.Dense
+		pr["args"] = c.Args
+	} else if c.Vec != nil {
 		pr["vec"] = []int(c.Vec)
 	} else {
 		pr["ladder"] = c.Ladder
@@ -42,6 +51,16 @@ func (c *pcase) toCase(harness string) core.Case {
 func pcaseFromCase(c core.Case) *pcase {
 	t := byte(paramInt(c.Params, "type"))
 	pc := &pcase{Type: t, Stratum: paramStr(c.Params, "stratum")}
+	if d := paramStr(c.Params, "dense"); d != "" {
+		pc.Dense = d
+		if v, ok := c.Params["args"].([]any); ok {
+			for _, e := range v {
+				pc.Args = append(pc.Args, int(e.(float64)))
+			}
+		}
+		pc.P = densePacket(t, d, pc.Args)
+		return pc
+	}
 	if v, ok := c.Params["vec"].([]any); ok {
 		pc.Vec = make(gen.Vec, len(v))
 		for i, e := range v {
@@ -186,6 +205,181 @@ func enumPackets(x *core.Ctx, k int, types []byte, fn func(c *pcase)) {
 				}
 				if p := ladderPacket(t, "pl", target, rich); p != nil {
 					fn(&pcase{Stratum: "S3.ladder.proplen", Type: t, Ladder: "pl", Target: target, Rich: rich, P: p})
+				}
+			}
+		}
+	}
+	// S5 dense strata
+	enumDense(x, types, false, fn)
+}
+
+// ---- dense strata (gen/dense.go) -------------------------------------------
+
+// denseBase: 0 = rich packet (every optional field present, failing reason
+// code), 1 = the same with reason code 0 (success), 2 = minimal packet.
+func denseBase(t byte, b int) *spec.Packet {
+	switch b {
+	case 0:
+		return richPacket(t, false)
+	case 1:
+		p := richPacket(t, false)
+		p.Reason = 0
+		return p
+	}
+	return minimalPacket(t)
+}
+
+func densePacket(t byte, kind string, a []int) *spec.Packet {
+	switch kind {
+	case "site": // base, site, length
+		return gen.WithSiteLen(denseBase(t, a[0]), a[1], a[2])
+	case "pair": // base, site1, len1, site2, len2
+		p := gen.WithSiteLen(denseBase(t, a[0]), a[1], a[2])
+		if p == nil {
+			return nil
+		}
+		return gen.WithSiteLen(p, a[3], a[4])
+	case "subid": // base, value, mode (0 single, 1 followed by another identifier)
+		p := denseBase(t, a[0])
+		var props []spec.Prop
+		for _, pr := range p.Props {
+			if pr.ID != 0x0b {
+				props = append(props, pr)
+			}
+		}
+		props = append(props, spec.Prop{ID: 0x0b, N: uint32(a[1])})
+		if a[2] == 1 && t == 3 {
+			props = append(props, spec.Prop{ID: 0x0b, N: 7})
+		}
+		p.Props = props
+		return p
+	case "filter": // content index, option byte, position (0 alone, 1 first of two, 2 last of two)
+		p := minimalPacket(t)
+		all := append(append([]string{}, gen.FilterContents...), gen.FilterContentsOdd...)
+		f := spec.Filter{Topic: []byte(all[a[0]]), Opts: byte(a[1])}
+		other := spec.Filter{Topic: []byte("o/+"), Opts: 1}
+		if t == 10 {
+			f.Opts, other.Opts = 0, 0
+		}
+		switch a[2] {
+		case 0:
+			p.Filters = []spec.Filter{f}
+		case 1:
+			p.Filters = []spec.Filter{f, other}
+		default:
+			p.Filters = []spec.Filter{other, f}
+		}
+		return p
+	}
+	return nil
+}
+
+func describeDense(t byte, kind string, a []int) string {
+	name := gen.Schemas[t].Name
+	bases := []string{"rich", "rich/reason=0", "minimal"}
+	switch kind {
+	case "site":
+		ss := gen.Sites(denseBase(t, a[0]))
+		return fmt.Sprintf("%s %s with %s of %d bytes", name, bases[a[0]], ss[a[1]].Name, a[2])
+	case "pair":
+		ss := gen.Sites(denseBase(t, a[0]))
+		return fmt.Sprintf("%s %s with %s of %d bytes and %s of %d bytes", name, bases[a[0]], ss[a[1]].Name, a[2], ss[a[3]].Name, a[4])
+	case "subid":
+		return fmt.Sprintf("%s %s with subscription identifier %d (mode %d)", name, bases[a[0]], a[1], a[2])
+	case "filter":
+		all := append(append([]string{}, gen.FilterContents...), gen.FilterContentsOdd...)
+		return fmt.Sprintf("%s with filter %q options %#02x position %d", name, all[a[0]], a[1], a[2])
+	}
+	return name + " " + kind
+}
+
+// enumDense enumerates the dense strata: every length 0..300 (thorough
+// 0..1100, plus isolated larger ones) of every byte-string field from three
+// bases; pairs of fields over a coarse length set; every subscription
+// identifier whose 7-bit groups come from a 9-letter alphabet; every filter
+// content x legal option byte x position. odd adds filter contents MQTT
+// gives no meaning to and all 256 option bytes (for checks whose domain is
+// every constructible value).
+func enumDense(x *core.Ctx, types []byte, odd bool, fn func(c *pcase)) {
+	emit := func(stratum string, t byte, kind string, args ...int) bool {
+		if !x.Mine() {
+			return true
+		}
+		if x.Expired() {
+			return false
+		}
+		p := densePacket(t, kind, args)
+		if p == nil {
+			return true
+		}
+		fn(&pcase{Stratum: stratum, Type: t, Dense: kind, Args: args, P: p})
+		return true
+	}
+	lens := gen.DenseLens(x.Thorough())
+	for _, t := range types {
+		if t == 12 || t == 13 {
+			continue
+		}
+		for b := 0; b < 3; b++ {
+			if b == 1 && denseBase(t, 0).Reason == 0 {
+				continue
+			}
+			ns := len(gen.Sites(denseBase(t, b)))
+			for si := 0; si < ns; si++ {
+				for _, n := range lens {
+					if !emit("S5.dense.site", t, "site", b, si, n) {
+						return
+					}
+				}
+			}
+			if b == 2 {
+				continue
+			}
+			for s1 := 0; s1 < ns; s1++ {
+				for s2 := s1 + 1; s2 < ns; s2++ {
+					for _, n1 := range gen.PairLens {
+						for _, n2 := range gen.PairLens {
+							if !emit("S5.dense.pair", t, "pair", b, s1, n1, s2, n2) {
+								return
+							}
+						}
+					}
+				}
+			}
+		}
+		if t == 3 || t == 8 {
+			for _, v := range gen.VarintGroupValues() {
+				for b := 0; b < 3; b += 2 {
+					for mode := 0; mode < 2; mode++ {
+						if mode == 1 && t != 3 {
+							continue
+						}
+						if !emit("S5.dense.subid", t, "subid", b, int(v), mode) {
+							return
+						}
+					}
+				}
+			}
+		}
+		if t == 8 || t == 10 {
+			nc := len(gen.FilterContents)
+			if odd {
+				nc += len(gen.FilterContentsOdd)
+			}
+			for ci := 0; ci < nc; ci++ {
+				for o := 0; o < 256; o++ {
+					legal := o < 64 && o&3 != 3 && (o>>4)&3 != 3
+					if t == 10 && o != 0 {
+						break
+					}
+					if !legal && !odd {
+						continue
+					}
+					for pos := 0; pos < 3; pos++ {
+						if !emit("S5.dense.filter", t, "filter", ci, o, pos) {
+							return
+						}
+					}
 				}
 			}
 		}
